@@ -263,7 +263,7 @@ pub fn run(ctx: &Ctx) -> Report {
             }
         }
         for s in &probes {
-            check_input(&mut a, s, &mut acc, true);
+            guarded(&mut acc, &format!("bytes {}", hx(s)), |acc| check_input(&mut a, s, acc, true));
             acc.inc("size_probes");
         }
     }
@@ -302,14 +302,14 @@ pub fn run(ctx: &Ctx) -> Report {
                         inp.push(first);
                         inp.extend(std::iter::repeat(0x42).take(n as usize - 1));
                     }
-                    check_input_sized(&mut a, &inp, &mut acc, n <= 4096, 65536 + 8 * inp.len() as u64);
+                    guarded(&mut acc, &format!("prefix class: {}-byte prefix {} declaring {n} bytes, payload {first:02x} 42..", l, hx(&s)), |acc| check_input_sized(&mut a, &inp, acc, n <= 4096, 65536 + 8 * inp.len() as u64));
                     acc.inc("prefix_class_cases");
                     // and nested as the left child of a pair
                     if n <= (1 << 16) {
                         let mut w = vec![0xff];
                         w.extend(&inp);
                         w.push(0x80);
-                        check_input_sized(&mut a, &w, &mut acc, false, 65536 + 8 * w.len() as u64);
+                        guarded(&mut acc, &format!("prefix class nested: {}-byte prefix {} declaring {n} bytes", l, hx(&s)), |acc| check_input_sized(&mut a, &w, acc, false, 65536 + 8 * w.len() as u64));
                         acc.inc("prefix_class_cases");
                     }
                 }
